@@ -152,6 +152,48 @@ impl AssociationHandler for MMock {
     }
 }
 
+/// FileReader that turns its terminal callback into the request's outcome
+pub struct RecFileReader {
+    shared: Arc<Mutex<MShared>>,
+    id: u64,
+    t0: u64,
+    blocks: u32,
+    bytes: usize,
+    opened: Option<u32>,
+}
+
+impl RecFileReader {
+    fn finish(&mut self, text: String) {
+        let mut g = self.shared.lock().unwrap_or_else(|e| e.into_inner());
+        let t1 = g.clock.now_ms();
+        let o = io::bump();
+        g.results.push((self.id, self.t0, t1, o, text));
+    }
+}
+
+impl FileReader for RecFileReader {
+    fn opened(&mut self, size: u32) -> FileAction {
+        self.opened = Some(size);
+        FileAction::Continue
+    }
+    fn block_received(&mut self, block_num: u32, data: &[u8]) -> crate::app::MaybeAsync<FileAction> {
+        if block_num != self.blocks {
+            self.finish(format!("Err(block {block_num} delivered, {} expected)", self.blocks));
+        }
+        self.blocks += 1;
+        self.bytes += data.len();
+        crate::app::MaybeAsync::ready(FileAction::Continue)
+    }
+    fn aborted(&mut self, err: FileError) {
+        let t = format!("Err(aborted {err:?} after {} blocks)", self.blocks);
+        self.finish(t);
+    }
+    fn completed(&mut self) {
+        let t = format!("Ok(completed: opened {:?}, {} blocks, {} bytes)", self.opened, self.blocks, self.bytes);
+        self.finish(t);
+    }
+}
+
 /// a user request the harness can submit
 #[derive(Clone, Debug)]
 pub enum UserReq {
@@ -165,6 +207,9 @@ pub enum UserReq {
     WriteDeadBands(Vec<(u16, u16)>),
     LinkStatus,
     EmptyResponse(u8),
+    /// read a remote file through a recording FileReader (the outcome is its terminal callback)
+    ReadFile(u16),
+    GetFileInfo,
     /// READ with several headers: (kind 0 all | 1 range8 | 2 range16 | 3 count8 | 4 count16, group, variation, a, b)
     ReadHeaders(Vec<(u8, u8, u8, u16, u16)>),
 }
@@ -398,6 +443,17 @@ impl MasterSim {
                 UserReq::WarmRestart => format!("{:?}", h.warm_restart().await),
                 UserReq::WriteDeadBands(v) => format!("{:?}", h.write_dead_bands(vec![DeadBandHeader::group34_var1_u16(v)]).await),
                 UserReq::LinkStatus => format!("{:?}", h.check_link_status().await),
+                UserReq::ReadFile(max_block) => {
+                    // the outcome is pushed by the reader's terminal callback; only a refused submission is reported here
+                    let reader = RecFileReader { shared: shared.clone(), id, t0, blocks: 0, bytes: 0, opened: None };
+                    let mut fcfg = FileReadConfig::default();
+                    fcfg.max_block_size = max_block;
+                    match h.read_file("some/file.txt", fcfg, Box::new(reader), None).await {
+                        Ok(()) => return,
+                        Err(e) => format!("Err(not queued: {e:?})"),
+                    }
+                }
+                UserReq::GetFileInfo => format!("{:?}", h.get_file_info("some/file.txt").await),
                 UserReq::ReadHeaders(hs) => {
                     let mut v = vec![];
                     let mut bad = false;
